@@ -557,11 +557,9 @@ impl Source {
     pub fn rules_requires_root(&self) -> Option<bool> {
         self.0
             .get("Rules-Requires-Root")
-            .map(|s| match s.to_lowercase().as_str() {
-                "yes" => true,
-                "no" => false,
-                _ => panic!("invalid Rules-Requires-Root value"),
-            })
+            // "binary-targets" and the "<namespace>/<case>" keywords of Policy 5.6.31 all ask for
+            // root in some form; only "no" does not
+            .map(|s| !s.eq_ignore_ascii_case("no"))
     }
 
     /// Set the Rules-Requires-Root field
